@@ -1,7 +1,7 @@
 (* C07 — identifiers bind to the innermost preceding declaration in scope.
    Only statements, each closed by a lemma of ScopeProofs.v, with the axioms it rests on. *)
 From Coq Require Import List Arith.
-From Coq Require Import ZArith.
+From Coq Require Import ZArith Permutation.
 From Utap Require Import Scope ScopeProofs DotModel DotProofs.
 Import ListNotations.
 
@@ -32,7 +32,7 @@ Print Assumptions C07_frames_balanced.
    the whole instantiation chain substituted *)
 Theorem C07_qualified_member : forall (p : proc) x i t, dot p x = Some (i, t) ->
   exists t0, nth_error (p_frame p) i = Some (x, t0) /\ (forall j b, j < i -> nth_error (p_frame p) j = Some b -> fst b <> x) /\
-             t = if is_loc t0 then TBool else subst_all (p_map p) (trename (p_templ p) (p_id p) t0).
+             t = if is_loc t0 then TBool else subst_rounds (p_map p) (trename (p_templ p) (p_id p) t0).
 Proof. exact dot_sound. Qed.
 Print Assumptions C07_qualified_member.
 Theorem C07_qualified_only_template_members : forall (p : proc) x, dot p x = None <-> ~ In x (map fst (p_frame p)).
@@ -44,18 +44,26 @@ Theorem C07_qualified_is_the_template_declaration : forall (f : frame) (ds : lis
   rep f ds -> NoDup (map fst ds) -> first_member (f_syms f) x = frame_lookup f x.
 Proof. exact qualified_is_unqualified. Qed.
 Print Assumptions C07_qualified_is_the_template_declaration.
-(* "with P's arguments substituted": under any meaning of literals and operators, each bound of the type of P.x denotes what the
-   declared bound denotes once every parameter of the instantiation chain has the value of its argument *)
-Theorem C07_qualified_arguments_substituted : forall (p : proc) x i t t0,
+(* "with P's arguments substituted": m is the instantiation chain of P, innermost template first (each argument may mention the
+   parameters of the levels wrapped around it); the library holds it as a map ordered by symbol address, so p_map p is any
+   permutation of m.  Under any meaning of literals and operators, each bound of the type of P.x denotes what the declared bound
+   denotes once every parameter of the chain has the value of its argument *)
+Theorem C07_qualified_arguments_substituted : forall (p : proc) (m : list (sym * bexp)) x i t t0,
+  triangular m -> Permutation m (p_map p) ->
   dot p x = Some (i, t) -> nth_error (p_frame p) i = Some (x, t0) -> is_loc t0 = false ->
-  exists bs', bounds_of t = bs' /\ length bs' = length (bounds_of t0) /\
-    forall V lit opsem r k b b', nth_error (bounds_of t0) k = Some b -> nth_error bs' k = Some b' ->
-      beval V lit opsem r b' = beval V lit opsem (env_of V lit opsem (p_map p) r) b.
+  length (bounds_of t) = length (bounds_of t0) /\
+  forall V lit opsem r k b b', nth_error (bounds_of t0) k = Some b -> nth_error (bounds_of t) k = Some b' ->
+    beval V lit opsem r b' = beval V lit opsem (env_of V lit opsem m r) b.
 Proof. exact dot_bound_meaning. Qed.
 Print Assumptions C07_qualified_arguments_substituted.
-(* and no parameter survives when the arguments are applied innermost template first *)
-Theorem C07_qualified_no_parameter_left : forall m b, triangular m -> (forall y, In y (fv b) -> In y (map fst m)) -> fv (bsubst_all m b) = [].
-Proof. exact bsubst_all_closed. Qed.
+(* the passes of expr_dot compute the substitution of the chain whatever the iteration order of the map *)
+Theorem C07_qualified_order_independent : forall m m' b, triangular m -> Permutation m m' -> bsubst_rounds m' b = bsubst_all m b.
+Proof. exact rounds_any_order. Qed.
+Print Assumptions C07_qualified_order_independent.
+(* and no parameter of the chain survives in the type *)
+Theorem C07_qualified_no_parameter_left : forall (p : proc) (m : list (sym * bexp)) x i t b y,
+  triangular m -> Permutation m (p_map p) -> dot p x = Some (i, t) -> In b (bounds_of t) -> In y (fv b) -> ~ In y (map fst m).
+Proof. exact dot_no_parameter_left. Qed.
 Print Assumptions C07_qualified_no_parameter_left.
 
 Example C07_example :
